@@ -16,6 +16,10 @@
 //!              entry-count limit (1024) is within reach
 //!   steps    = calls: AddOp{r,o} Merge{r,s} VerifiedMerge{r,s} VerifiedMergeCrafted{r,cs,sig}
 //!              Verify{r} Read{r} Law{k,p,q,t,vm}
+//! Address ids: 1, 2 = two registers (metas) of key 1; 3 = the meta of address 1 under owner key 2.
+//! Before the steps every scenario is probed with tampered copies of authorised operations (content / parents
+//! rewritten, or re-addressed from another register, signature kept: event Tampered) and with altered base
+//! registers carrying the owner's signature over the genuine base (event BaseProbe).
 //! Every event carries the real result ("Ok" | "Err:<variant>" | "Panic") and the projected state of
 //! the replica touched: ids of the operations held, number of fillers held, the value read through a
 //! RegisterCrdt as node ids, and the result of verify() when that is cheap.
@@ -31,6 +35,13 @@ use xor_name::XorName;
 
 const REAL_LIMIT: usize = 1024; // MAX_REG_NUM_ENTRIES (private in ant-registers; logged so the oracle knows the scale)
 const N_KEYS: usize = 7;
+// key ids (1-based in scenarios): 1 owner, 2-3 writers, 4-5 strangers; indices 5 and 6 only ever forge
+const FORGE_KEY: usize = 5; // signs a forged operation in place of its claimed signer
+const BADBASE_KEY: usize = 6; // signs a base register in place of its owner
+/// owner (key id) of address id `a`: addresses 1 and 2 are two registers (metas) of key 1; address 3 is the
+/// register with the SAME meta as address 1 owned by key 2 (the owner half of the address varies)
+fn owner_of(a: usize) -> usize { if a == 3 { 2 } else { 1 } }
+fn meta_of(a: usize) -> XorName { XorName([if a == 3 { 1 } else { a as u8 }; 32]) }
 const MAX_FILLERS: usize = 1030;
 
 struct Fillers {
@@ -69,7 +80,7 @@ impl World {
         World { keys, fillers: Mutex::new(HashMap::new()), padded: Mutex::new(HashMap::new()), opcache: Mutex::new(HashMap::new()) }
     }
     fn address(&self, a: usize) -> RegisterAddress {
-        RegisterAddress::new(XorName([a as u8; 32]), self.keys[0].public_key())
+        RegisterAddress::new(meta_of(a), self.keys[owner_of(a) - 1].public_key())
     }
     fn fillers(&self, a: usize) -> Arc<Fillers> {
         let mut g = self.fillers.lock().expect("lock");
@@ -85,7 +96,7 @@ impl World {
             let mut val = b"filler".to_vec();
             val.extend_from_slice(&(i as u32).to_be_bytes());
             let (h, ad, node) = c.write(val, &BTreeSet::new()).expect("write");
-            let op = RegisterOp::new(ad, node, &self.keys[0]);
+            let op = RegisterOp::new(ad, node, &self.keys[owner_of(a) - 1]);
             idx.insert(op.clone(), i);
             nodes.insert(h.0);
             ops.push(op);
@@ -94,16 +105,53 @@ impl World {
         g.insert(a, f.clone());
         f
     }
-    fn register(&self, b: &Value) -> (Register, bls::Signature) {
-        let perms = if b["open"].as_bool().expect("open") {
+    fn perms(&self, b: &Value) -> Permissions {
+        if b["open"].as_bool().expect("open") {
             Permissions::new_anyone_can_write()
         } else {
             Permissions::new_with(ids(&b["writers"]).into_iter().map(|k| self.keys[k - 1].public_key()))
-        };
-        let reg = Register::new(self.keys[0].public_key(), XorName([us(&b["addr"]) as u8; 32]), perms);
+        }
+    }
+    fn register(&self, b: &Value) -> (Register, bls::Signature) {
+        let a = us(&b["addr"]);
+        let owner = &self.keys[owner_of(a) - 1];
+        // Register::new adds the owner to the writers: the scenario's writer list must say so too
+        assert!(b["open"].as_bool().expect("open") || ids(&b["writers"]).contains(&owner_of(a)), "base {b}: writers must contain the owner");
+        let reg = Register::new(owner.public_key(), meta_of(a), self.perms(b));
         let bytes = reg.bytes().expect("register bytes");
-        let sig = if b["sigOk"].as_bool().expect("sigOk") { self.keys[0].sign(bytes) } else { self.keys[N_KEYS - 1].sign(bytes) };
+        let sig = if b["sigOk"].as_bool().expect("sigOk") { owner.sign(bytes) } else { self.keys[BADBASE_KEY].sign(bytes) };
         (reg, sig)
+    }
+    /// C06-1: base registers that are NOT what the owner signed -- the genuine base of `b` with its permissions,
+    /// meta or owner swapped -- each to be presented with the owner's signature over the genuine base.
+    fn altered_bases(&self, b: &Value) -> Vec<(&'static str, Register)> {
+        let a = us(&b["addr"]);
+        let owner = self.keys[owner_of(a) - 1].public_key();
+        let open = b["open"].as_bool().expect("open");
+        let ws = ids(&b["writers"]);
+        let stranger = (1..=5usize).rev().find(|k| !ws.contains(k)).unwrap_or(5);
+        let mut out = vec![];
+        if open {
+            // an open register presented as restricted to the owner / to a stranger
+            out.push(("perms_restrict", Register::new(owner, meta_of(a), Permissions::new_with([owner]))));
+            out.push(("perms_add", Register::new(owner, meta_of(a), Permissions::new_with([self.keys[3].public_key()]))));
+        } else {
+            // a stranger added to the writers; the register opened to anyone
+            let mut w2 = ws.clone();
+            w2.push(stranger);
+            out.push(("perms_add", Register::new(owner, meta_of(a), Permissions::new_with(w2.into_iter().map(|k| self.keys[k - 1].public_key())))));
+            out.push(("perms_open", Register::new(owner, meta_of(a), Permissions::new_anyone_can_write())));
+            if ws.len() > 1 {
+                out.push(("perms_restrict", Register::new(owner, meta_of(a), Permissions::new_with([owner]))));
+            }
+        }
+        // another meta, same owner and permissions
+        out.push(("meta", Register::new(owner, XorName([0xEE; 32]), self.perms(b))));
+        // another owner (a writer / a stranger), same meta and permissions
+        let other = if owner_of(a) == 2 { 1 } else { 2 };
+        out.push(("owner", Register::new(self.keys[other - 1].public_key(), meta_of(a), self.perms(b))));
+        out.push(("owner_stranger", Register::new(self.keys[4].public_key(), meta_of(a), self.perms(b))));
+        out
     }
     /// an honest replica of base `b` that has been given `nf` fillers through add_op
     fn honest(&self, b: &Value, nf: usize) -> Arc<(SignedRegister, String)> {
@@ -193,7 +241,7 @@ fn build_op(w: &World, pool: &[Value], o: &Value) -> (RegisterOp, [u8; 32]) {
     let forged = match us(&o["forge"]) {
         // signed by another key, source replaced by the claimed signer
         2 => {
-            let by_other = RegisterOp::new(a, node, &w.keys[N_KEYS - 2]);
+            let by_other = RegisterOp::new(a, node, &w.keys[FORGE_KEY]);
             let mut v = serde_json::to_value(&by_other).expect("ser");
             v["source"] = serde_json::to_value(&good).expect("ser")["source"].clone();
             serde_json::from_value::<RegisterOp>(v).expect("de")
@@ -350,25 +398,66 @@ fn run_scenario(w: &World, sc: &Value, run: u64) -> Vec<Value> {
         let r = 0usize;
         if us(&o["addr"]) != us(&bases[r]["addr"]) { continue; }
         let open = bases[r]["open"].as_bool().unwrap_or(false);
-        for kind in ["reparent", "value"] {
+        for kind in ["reparent", "value", "readdress", "readdress_owner"] {
             let mut v = serde_json::to_value(&good).expect("ser");
             if kind == "reparent" {
                 let empty = v["crdt_op"]["children"].as_array().map(|a| a.is_empty()).unwrap_or(true);
                 v["crdt_op"]["children"] = if empty { json!([vec![7u8; 32]]) } else { json!([]) };
-            } else {
+            } else if kind == "value" {
                 v["crdt_op"]["value"] = json!(b"tampered entry".to_vec());
+            } else {
+                // C06-2: the same entry, validly signed by the same signer for ANOTHER register (another meta /
+                // the same meta under another owner), presented with this register's address and that signature
+                let here = us(&o["addr"]);
+                let there = if kind == "readdress" { if here == 2 { 1 } else { 2 } } else if here == 3 { 1 } else { 3 };
+                let mut o2 = o.clone();
+                o2["addr"] = json!(there);
+                let (elsewhere, _) = build_op(w, &pool_spec, &o2);
+                if guarded(|| elsewhere.verify_signature(&elsewhere.source())).ok().and_then(|x| x.ok()).is_none() { continue; }
+                let address = v["address"].clone();
+                v = serde_json::to_value(&elsewhere).expect("ser");
+                v["address"] = address;
             }
             let Ok(bad) = serde_json::from_value::<RegisterOp>(v) else { continue };
             if bad == good { continue; }
             let mut fresh = regs[r].clone();
             let res = guarded(|| fresh.add_op(bad.clone()));
-            // a register assembled with the tampered op, presented to verify()
-            let mut set: BTreeSet<RegisterOp> = regs[r].ops().clone();
+            // a register assembled with the tampered op, presented to verify() (the re-addressed ones on their own
+            // when the replica is padded and not open: verify() would check ~1021 filler signatures first)
+            let alone = kind.starts_with("readdress") && nfs[r] > 0 && !open;
+            let mut set: BTreeSet<RegisterOp> = if alone { BTreeSet::new() } else { regs[r].ops().clone() };
             set.insert(bad);
             let (reg, sg) = w.register(&bases[r]);
             let crafted = SignedRegister::new(reg, sg, set);
             let ver = guarded(|| crafted.verify());
             emit(json!({"ev": "Tampered", "r": r + 1, "o": i + 1, "kind": kind, "open": open, "res": res_str(&res), "ver": res_str(&ver)}), &mut out);
+        }
+    }
+    // C06-1: replica 1's base with permissions / meta / owner swapped, presented with the signature the owner gave
+    // the genuine base, to verify() and (as the source) to verified_merge() of a replica of the same altered base
+    // and of the honest replica
+    {
+        let r = 0usize;
+        let (genuine, sg) = w.register(&bases[r]);
+        let ctl = res_str(&guarded(|| SignedRegister::new(genuine.clone(), sg.clone(), BTreeSet::new()).verify()));
+        let gbytes = genuine.bytes().expect("register bytes");
+        let set: BTreeSet<RegisterOp> = pool_spec.iter().enumerate()
+            .filter(|(_, o)| o["sigOk"].as_bool().unwrap_or(false) && !o["big"].as_bool().unwrap_or(false) && us(&o["addr"]) == us(&bases[r]["addr"]))
+            .take(4).map(|(i, _)| p.ops[i].clone()).collect();
+        for (kind, alt) in w.altered_bases(&bases[r]) {
+            let differs = alt.bytes().map(|b| b != gbytes).unwrap_or(true);
+            let crafted = SignedRegister::new(alt.clone(), sg.clone(), set.clone());
+            let ver = guarded(|| crafted.verify());
+            // verify_with_address = address comparison + verify(): once per scenario, where the address is what was altered
+            let vwa = if kind == "meta" { res_str(&guarded(|| crafted.verify_with_address(*crafted.address()))) } else { "skip".to_string() };
+            let mut twin = SignedRegister::new(alt.clone(), sg.clone(), BTreeSet::new());
+            let vm = guarded(|| twin.verified_merge(&crafted));
+            let mut mine = regs[r].clone();
+            let before = mine.ops().len();
+            let vmh = guarded(|| mine.verified_merge(&crafted));
+            emit(json!({"ev": "BaseProbe", "r": r + 1, "kind": kind, "differs": differs, "ctl": ctl, "nops": set.len(),
+                        "ver": res_str(&ver), "vwa": vwa, "vm": res_str(&vm), "entered": twin.ops().len(),
+                        "vmh": res_str(&vmh), "hentered": mine.ops().len() - before.min(mine.ops().len())}), &mut out);
         }
     }
     for st in sc["steps"].as_array().expect("steps") {
@@ -494,8 +583,14 @@ fn gen_scenario(r: &mut impl Rng, id: usize, mode: &str) -> Value {
     let main = base_json(1, open, &writers);
     let mut bases = vec![];
     for i in 0..n {
-        if i >= 2 && r.gen_bool(0.2) && !limit_run {
-            if r.gen_bool(0.5) { bases.push(base_json(2, open, &writers)); }
+        if i >= 2 && r.gen_bool(0.25) && !limit_run {
+            if r.gen_bool(0.3) { bases.push(base_json(2, open, &writers)); }
+            else if r.gen_bool(0.4) {
+                // same meta, other owner (key 2): Register::new makes the owner a writer
+                let mut w3 = writers.clone();
+                if !w3.contains(&2) { w3.push(2); w3.sort(); }
+                bases.push(base_json(3, open, &w3));
+            }
             else if open { bases.push(base_json(1, false, &[1, 2])); }
             else { bases.push(base_json(1, r.gen_bool(0.5), &[1, 3])); }
         } else {
@@ -530,7 +625,9 @@ fn gen_scenario(r: &mut impl Rng, id: usize, mode: &str) -> Value {
         } else if kind < 86 {
             json!({"signer": *allowed.choose(r).expect("w"), "sigOk": true, "big": true, "deps": deps, "addr": 1, "node": next_node, "vlen": if r.gen_bool(0.5) { 1025 } else { r.gen_range(1026..3000) }, "forge": 0})
         } else if kind < 94 {
-            json!({"signer": *allowed.choose(r).expect("w"), "sigOk": true, "big": false, "deps": deps, "addr": 2, "node": next_node, "vlen": small, "forge": 0})
+            // made for another register: another meta (2), or the same meta under another owner (3; half of those by its owner)
+            let (addr, signer) = if kind < 90 { (2, *allowed.choose(r).expect("w")) } else { (3, if r.gen_bool(0.5) { 2 } else { *allowed.choose(r).expect("w") }) };
+            json!({"signer": signer, "sigOk": true, "big": false, "deps": deps, "addr": addr, "node": next_node, "vlen": small, "forge": 0})
         } else {
             // the same DAG node carried by another operation (other signer / forged copy)
             let prev = pool.choose(r).expect("prev").clone();
@@ -589,7 +686,9 @@ fn gen_scenario(r: &mut impl Rng, id: usize, mode: &str) -> Value {
         } else {
             let c = r.gen_range(1..=n);
             let k = ["comm", "assoc", "idem"][r.gen_range(0..3)];
-            steps.push(json!({"a": "Law", "k": k, "p": a, "q": b, "t": c, "vm": false}));
+            // C06-4: a third of the law instances through verified_merge (not on padded restricted replicas:
+            // every verified merge there checks ~1021 signatures)
+            steps.push(json!({"a": "Law", "k": k, "p": a, "q": b, "t": c, "vm": !heavy && r.gen_bool(0.34)}));
         }
     }
     // anti-entropy: two rounds of pairwise merges in a random order; afterwards every replica of the
@@ -608,6 +707,13 @@ fn gen_scenario(r: &mut impl Rng, id: usize, mode: &str) -> Value {
     steps.push(json!({"a": "Law", "k": "comm", "p": 1, "q": 2, "t": 1, "vm": false}));
     steps.push(json!({"a": "Law", "k": "assoc", "p": 1, "q": 2, "t": 3, "vm": false}));
     steps.push(json!({"a": "Law", "k": "idem", "p": n, "q": 1, "t": 1, "vm": false}));
+    if !heavy {
+        steps.push(json!({"a": "Law", "k": "comm", "p": 1, "q": 2, "t": 1, "vm": true}));
+        if !limit_run {
+            steps.push(json!({"a": "Law", "k": "assoc", "p": 1, "q": 2, "t": 3, "vm": true}));
+        }
+        steps.push(json!({"a": "Law", "k": "idem", "p": n, "q": 1, "t": 1, "vm": true}));
+    }
     json!({"id": id, "src": if limit_run { "limit" } else { "random" }, "pool": pool, "bases": bases, "nf": nf, "steps": steps})
 }
 
